@@ -264,3 +264,157 @@ def objective_function(ctx: Ctx, f: FuncInfo, arg: ast.AST):
     if isinstance(e, ast.Attribute):
         return "method-ref", e, None, []
     return "unknown", e, None, []
+
+
+# ---------------------------------------------------------------- deme listings of DemeTree (all_demes, active_demes, ...)
+def _height_offset(e: ast.AST, sn: str):
+    """e == <number of levels> + k  ->  k (k <= 0), else None.  `self.height`, `len(self.levels)`, `len(self._levels)`."""
+    from ..core import _split_offset, canon
+
+    try:
+        base, off = _split_offset(e)
+    except Exception:  # pragma: no cover
+        return None
+    bt = canon(base)
+    if bt in (f"{sn}.height", f"len({sn}.levels)", f"len({sn}._levels)"):
+        return off
+    return None
+
+
+def _levels_source(e: ast.AST, sn: str):
+    """e is the list of levels, or a prefix of it: -> offset k meaning levels[0 : height + k], else None."""
+    from ..core import canon
+
+    t = canon(e)
+    if t in (f"{sn}.levels", f"{sn}._levels"):
+        return 0
+    if isinstance(e, ast.Subscript) and canon(e.value) in (f"{sn}.levels", f"{sn}._levels") and isinstance(e.slice, ast.Slice) and e.slice.step is None and (e.slice.lower is None or (isinstance(e.slice.lower, ast.Constant) and e.slice.lower.value == 0)):
+        up = e.slice.upper
+        if up is None:
+            return 0
+        if isinstance(up, ast.UnaryOp) and isinstance(up.op, ast.USub) and isinstance(up.operand, ast.Constant) and isinstance(up.operand.value, int):
+            return -up.operand.value
+        return _height_offset(up, sn)
+    return None
+
+
+def deme_listing(ctx: Ctx, cls_name: str, accessor: str, _depth: int = 0) -> dict:
+    """What a DemeTree listing accessor enumerates, read off its (normalised) comprehension:
+    levels: k <= 0 meaning the levels [0, height + k), or None (not understood);  filters: set of 'is_active' / 'not is_active'
+    / '?<text>';  elt: 'pair' (level number, deme) / 'deme' / '?';  level_no_exact: the number paired with a deme is the index
+    of the level list the deme was taken from;  why: reason when something is not understood.
+    Accessors built on other accessors (`[(l, d) for l, d in self.all_demes if d.is_active]`) are resolved recursively."""
+    from ..core import canon
+
+    out = {"levels": None, "filters": set(), "elt": "?", "level_no_exact": False, "why": ""}
+    try:
+        m = ctx.prog.own_method(cls_name, accessor)
+    except Exception:
+        m = None
+    if m is None or _depth > 3:
+        out["why"] = f"{accessor} not found"
+        return out
+    sn = m.self_name()
+    rets = [r for r in body_walk(m.node) if isinstance(r, ast.Return) and r.value is not None]
+    if len(rets) != 1:
+        out["why"] = f"{accessor} has {len(rets)} returns"
+        return out
+    defs = local_defs(m)
+    v = rets[0].value
+    hops = 0
+    while isinstance(v, ast.Name) and v.id in defs and len(defs[v.id]) == 1 and hops < 4:
+        v = defs[v.id][0]
+        hops += 1
+    if isinstance(v, ast.Call) and norm(v.func) == "list" and len(v.args) == 1:
+        v = v.args[0]
+    if is_self_attr(v, None, sn) and v.attr in ("all_demes", "active_demes", "active_non_leaves") and v.attr != accessor:
+        return deme_listing(ctx, cls_name, v.attr, _depth + 1)
+    if not isinstance(v, (ast.ListComp, ast.GeneratorExp)):
+        out["why"] = f"{accessor} returns `{norm(v)[:60]}`, not a comprehension"
+        return out
+    idx_vars: dict[str, int] = {}    # level-index variable -> offset of its range
+    list_vars: dict[str, tuple] = {}  # level-list variable -> (offset, index var or None)
+    deme_var = None
+    deme_idx = None
+    levels = None
+    filters = set()
+    inherited_pair = None
+    for g in v.generators:
+        it, tg = g.iter, g.target
+        t_it = canon(it)
+        handled = False
+        if isinstance(it, ast.Call) and norm(it.func) == "range" and len(it.args) == 1 and isinstance(tg, ast.Name):
+            a0 = it.args[0]
+            hops = 0
+            while isinstance(a0, ast.Name) and a0.id in defs and len(defs[a0.id]) == 1 and hops < 4:
+                a0 = defs[a0.id][0]
+                hops += 1
+            k = _height_offset(a0, sn)
+            if k is not None:
+                idx_vars[tg.id] = k
+                handled = True
+        elif isinstance(it, ast.Call) and norm(it.func) == "enumerate" and len(it.args) == 1 and isinstance(tg, ast.Tuple) and len(tg.elts) == 2 and all(isinstance(x, ast.Name) for x in tg.elts):
+            k = _levels_source(it.args[0], sn)
+            if k is not None:
+                idx_vars[tg.elts[0].id] = k
+                list_vars[tg.elts[1].id] = (k, tg.elts[0].id)
+                handled = True
+        elif _levels_source(it, sn) is not None and isinstance(tg, ast.Name):
+            list_vars[tg.id] = (_levels_source(it, sn), None)
+            handled = True
+        elif isinstance(it, ast.Subscript) and canon(it.value) in (f"{sn}.levels", f"{sn}._levels") and isinstance(it.slice, ast.Name) and it.slice.id in idx_vars and isinstance(tg, ast.Name):
+            deme_var, deme_idx, levels = tg.id, it.slice.id, idx_vars[it.slice.id]
+            handled = True
+        elif isinstance(it, ast.Name) and it.id in list_vars and isinstance(tg, ast.Name):
+            deme_var, levels, deme_idx = tg.id, list_vars[it.id][0], list_vars[it.id][1]
+            handled = True
+        elif is_self_attr(it, None, sn) and it.attr in ("all_demes", "active_demes", "active_non_leaves") and it.attr != accessor and isinstance(tg, ast.Tuple) and len(tg.elts) == 2 and all(isinstance(x, ast.Name) for x in tg.elts):
+            sub = deme_listing(ctx, cls_name, it.attr, _depth + 1)
+            if sub["levels"] is not None and sub["elt"] == "pair":
+                levels, deme_var, deme_idx = sub["levels"], tg.elts[1].id, tg.elts[0].id
+                idx_vars[deme_idx] = levels
+                filters |= sub["filters"]
+                inherited_pair = sub["level_no_exact"]
+                handled = True
+        if not handled:
+            out["why"] = f"{accessor} iterates `{t_it[:60]}`"
+            return out
+        for c in g.ifs:
+            conj = c.values if isinstance(c, ast.BoolOp) and isinstance(c.op, ast.And) else [c]
+            for cc in conj:
+                tc = canon(cc)
+                if deme_var and tc in (f"{deme_var}.is_active", f"{deme_var}._active"):
+                    filters.add("is_active")
+                elif deme_var and tc in (f"not{deme_var}.is_active", f"not{deme_var}._active"):
+                    filters.add("not is_active")
+                elif deme_idx and isinstance(cc, ast.Compare) and len(cc.ops) == 1 and isinstance(cc.left, ast.Name) and cc.left.id == deme_idx and isinstance(cc.ops[0], (ast.Lt, ast.LtE, ast.NotEq)):
+                    rhs = cc.comparators[0]
+                    hops = 0
+                    while isinstance(rhs, ast.Name) and rhs.id in defs and len(defs[rhs.id]) == 1 and hops < 4:
+                        rhs = defs[rhs.id][0]
+                        hops += 1
+                    k = _height_offset(rhs, sn)
+                    if k is None:
+                        filters.add("?" + tc)
+                    elif isinstance(cc.ops[0], ast.Lt):
+                        levels = min(levels, k)
+                    elif isinstance(cc.ops[0], ast.LtE):
+                        levels = min(levels, k + 1)
+                    elif k == (levels - 1):  # i != last index of the range
+                        levels = levels - 1
+                    else:
+                        filters.add("?" + tc)
+                else:
+                    filters.add("?" + tc)
+    if deme_var is None:
+        out["why"] = f"{accessor}: no deme variable found"
+        return out
+    e = v.elt
+    if isinstance(e, ast.Tuple) and len(e.elts) == 2 and isinstance(e.elts[1], ast.Name) and e.elts[1].id == deme_var:
+        out["elt"] = "pair"
+        out["level_no_exact"] = isinstance(e.elts[0], ast.Name) and e.elts[0].id == deme_idx and (inherited_pair is not False)
+    elif isinstance(e, ast.Name) and e.id == deme_var:
+        out["elt"] = "deme"
+    out["levels"] = levels
+    out["filters"] = filters
+    return out
